@@ -214,3 +214,88 @@ func ErrText(err error) string {
 	}
 	return err.Error()
 }
+
+// FancyReader serves a byte stream like Reader but also offers every optional interface a
+// decoder might type-assert for a fast path (io.ByteScanner, io.WriterTo, io.Seeker, io.ReaderAt,
+// Len), all consistent with one stream position, while its Read keeps returning short reads.
+type FancyReader struct {
+	data []byte
+	pos  int
+	rng  *Rand
+}
+
+func NewFancyReader(data []byte, rng *Rand) *FancyReader { return &FancyReader{data: data, rng: rng} }
+
+func (f *FancyReader) Read(p []byte) (int, error) {
+	if len(p) == 0 {
+		return 0, nil
+	}
+	if f.pos >= len(f.data) {
+		return 0, io.EOF
+	}
+	n := 1 + f.rng.Intn(len(p))
+	if n > len(f.data)-f.pos {
+		n = len(f.data) - f.pos
+	}
+	copy(p, f.data[f.pos:f.pos+n])
+	f.pos += n
+	return n, nil
+}
+
+func (f *FancyReader) ReadByte() (byte, error) {
+	if f.pos >= len(f.data) {
+		return 0, io.EOF
+	}
+	f.pos++
+	return f.data[f.pos-1], nil
+}
+
+func (f *FancyReader) UnreadByte() error {
+	if f.pos == 0 {
+		return errors.New("verif: UnreadByte at start")
+	}
+	f.pos--
+	return nil
+}
+
+func (f *FancyReader) Len() int { return len(f.data) - f.pos }
+
+func (f *FancyReader) Seek(off int64, whence int) (int64, error) {
+	var np int64
+	switch whence {
+	case io.SeekStart:
+		np = off
+	case io.SeekCurrent:
+		np = int64(f.pos) + off
+	case io.SeekEnd:
+		np = int64(len(f.data)) + off
+	}
+	if np < 0 {
+		return 0, errors.New("verif: negative seek")
+	}
+	if np > int64(len(f.data)) {
+		np = int64(len(f.data))
+	}
+	f.pos = int(np)
+	return np, nil
+}
+
+func (f *FancyReader) ReadAt(p []byte, off int64) (int, error) {
+	if off >= int64(len(f.data)) {
+		return 0, io.EOF
+	}
+	n := copy(p, f.data[off:])
+	if n < len(p) {
+		return n, io.EOF
+	}
+	return n, nil
+}
+
+func (f *FancyReader) WriteTo(w io.Writer) (int64, error) {
+	n, err := w.Write(f.data[f.pos:])
+	f.pos += n
+	return int64(n), err
+}
+
+// Pos returns the stream position.
+func (f *FancyReader) Pos() int { return f.pos }
